@@ -516,8 +516,9 @@ const _: () = {
 
         fn variant_seed<V>(self, seed: V) -> Result<(V::Value, Self::Variant), Self::Error>
         where V: serde::de::DeserializeSeed<'de> {
+            /* the writer percent-encodes variant names as any other string: read it as one (`deserialize_identifier`) */
             Ok((
-                seed.deserialize(self.de.next_section()?.into_deserializer())?,
+                seed.deserialize(&mut *self.de)?,
                 self,
             ))
         }
